@@ -817,8 +817,15 @@ func (g *FuncGen) execFor(x *ast.ForStmt, st *State) Flow {
 	if x.Cond != nil {
 		g.scanWrites(x.Cond, ws)
 	}
+	fkeys := g.frameKeys(ws)
+	for _, k := range fkeys {
+		g.oblige(st, fmt.Sprintf("frame-entry/loop%d", ord), k, nil, g.frameFormula(st, k), x.Pos(), k+" unchanged on objects existing at entry")
+	}
 	head := st.clone()
 	g.havoc(head, ws, "loop")
+	for _, k := range fkeys {
+		g.assume(head, g.frameFormula(head, k))
+	}
 	g.assumeInvariants(head, ls, bodyPos, nil)
 	dec0 := g.decValues(head, ls, bodyPos, nil)
 	// 3. condition
@@ -836,6 +843,9 @@ func (g *FuncGen) execFor(x *ast.ForStmt, st *State) Flow {
 		back = g.execStmt(x.Post, back).next
 	}
 	if back != nil {
+		for _, k := range fkeys {
+			g.oblige(back, fmt.Sprintf("frame-keep/loop%d", ord), k, nil, g.frameFormula(back, k), x.Pos(), k+" unchanged on objects existing at entry")
+		}
 		g.checkInvariants(back, ls, ord, "inv-keep", bodyPos, nil)
 		if dec0 != nil {
 			dec1 := g.decValues(back, ls, bodyPos, nil)
@@ -875,8 +885,15 @@ func (g *FuncGen) execRange(x *ast.RangeStmt, st *State) Flow {
 	g.checkInvariants(st, ls, ord, "inv-entry", bodyPos, map[string]Val{"it": zero})
 	ws := newWriteSet()
 	g.scanWrites(x.Body, ws)
+	fkeys := g.frameKeys(ws)
+	for _, fk := range fkeys {
+		g.oblige(st, fmt.Sprintf("frame-entry/loop%d", ord), fk, nil, g.frameFormula(st, fk), x.Pos(), fk+" unchanged on objects existing at entry")
+	}
 	head := st.clone()
 	g.havoc(head, ws, "range")
+	for _, fk := range fkeys {
+		g.assume(head, g.frameFormula(head, fk))
+	}
 	k := g.fresh("it", "Int")
 	kv := Val{k, types.Typ[types.Int], "Int"}
 	g.assume(head, fmt.Sprintf("(and (<= 0 %s) (<= %s %s))", k, k, lenT))
@@ -930,6 +947,9 @@ func (g *FuncGen) execRange(x *ast.RangeStmt, st *State) Flow {
 	fl := g.execBlock(x.Body.List, bodySt)
 	back := g.merge(append([]*State{fl.next}, fl.cont...))
 	if back != nil {
+		for _, fk := range fkeys {
+			g.oblige(back, fmt.Sprintf("frame-keep/loop%d", ord), fk, nil, g.frameFormula(back, fk), x.Pos(), fk+" unchanged on objects existing at entry")
+		}
 		next := Val{fmt.Sprintf("(+ %s 1)", k), types.Typ[types.Int], "Int"}
 		g.checkInvariants(back, ls, ord, "inv-keep", bodyPos, map[string]Val{"it": next})
 	}
@@ -977,4 +997,64 @@ func (g *FuncGen) normalize(st *State) {
 		g.typeFacts(st, n, v.Ty)
 		st.vars[o] = Val{n, v.Ty, v.S}
 	}
+}
+
+// frameKeys: heap fields a loop may write that the function's contract does not list under modifies.
+// "unchanged on objects that existed at entry" is then an automatic loop invariant (checked and assumed).
+func (g *FuncGen) frameKeys(ws *writeSet) []string {
+	if g.F.Spec == nil || !(g.F.Spec.HasMods || g.F.Spec.Pure) {
+		return nil
+	}
+	allowed := map[string]bool{}
+	for _, m := range g.F.Spec.Modifies {
+		if m == "*" {
+			return nil
+		}
+		if m == "maps" {
+			continue
+		}
+		allowed[g.resolveModKey(g.F, m)] = true
+	}
+	var out []string
+	add := func(k string) {
+		if allowed[k] || strings.HasPrefix(k, "$") {
+			return
+		}
+		if _, ok := g.P.fieldSort(k); ok {
+			out = append(out, k)
+		}
+	}
+	for k := range ws.fields {
+		add(k)
+	}
+	for t := range ws.allocT {
+		for _, n := range g.P.Structs {
+			if namedKey(n) == t {
+				stt := n.Underlying().(*types.Struct)
+				for i := 0; i < stt.NumFields(); i++ {
+					add(fieldKey(n, stt.Field(i).Name()))
+				}
+			}
+		}
+	}
+	sort.Strings(out)
+	var uniq []string
+	for i, k := range out {
+		if i == 0 || out[i-1] != k {
+			uniq = append(uniq, k)
+		}
+	}
+	return uniq
+}
+
+func (g *FuncGen) frameFormula(st *State, k string) string {
+	fs, _ := g.P.fieldSort(k)
+	cur := g.heapGet(st, k, fs)
+	e := heapName(k) + "_0"
+	if g.entry != nil {
+		if x, ok := g.entry.heap[k]; ok {
+			e = x
+		}
+	}
+	return fmt.Sprintf("(forall ((r Int)) (! (=> (select alloc_0 r) (= (select %s r) (select %s r))) :pattern ((select %s r))))", cur, e, cur)
 }
